@@ -73,6 +73,8 @@ class Run:
         self.rules_run = []
         self.t0 = time.time()
         self._occ = {}
+        self.dry = False       # dry runs (thorough tier, auxiliary passes) neither print nor write evidence
+        self.selftest = None
 
     def add(self, rule, fn, desc, verdict, why='', loc='', nontrivial=True, witness=None):
         base = (rule, fn, desc)
@@ -165,6 +167,8 @@ def match_known(run, o, known_active):
 def finish(run, level='other', explanation='', assumptions=(), extra=None, exhaustive=None):
     """Write evidence, print protocol lines, return exit code."""
     pid = run.pid
+    if run.dry:
+        return 0
     known = [k for k in load_known() if k.get('property') == pid]
     known_active = {k['key']: k for k in known if k.get('status') == 'known'}
     viol = [o for o in run.obs if o.verdict == VIOLATION]
@@ -238,6 +242,8 @@ def finish(run, level='other', explanation='', assumptions=(), extra=None, exhau
         'undecided_list': [o.to_json() for o in run.obs if o.verdict == UNDECIDED][:60],
         'notes': run.notes,
     }
+    if run.selftest is not None:
+        cov['selftest'] = run.selftest
     if exhaustive is not None:
         cov['exhaustive'] = exhaustive
     if extra:
